@@ -71,16 +71,35 @@ structure FInv (s : St) : Prop where
   park : s.dpc = .parked → s.sig = false → s.tc + s.ws.countP isLocked = s.f
   dpark : s.dpc = .dparked → s.sig = false → 0 < s.tc + s.ws.countP isLocked
 
+def GPC.holds : GPC → Bool
+  | .inside _ => true
+  | _ => false
+
+/-- the watchdog (only with the STALEID repair, `sw`): who holds thd_mutex, and the shutdown order -/
+structure GInv (s : St) : Prop where
+  thdG1 : s.gpc.holds = true → s.thd = .g
+  thdG2 : s.thd = .g → s.gpc.holds = true
+  ownG : s.own ≠ .g
+  noSw : s.sw = false → s.gpc = .off ∧ s.gcan = false ∧ s.gjoin = false
+  can : s.gcan = true → s.gpc ≠ .sleeping ∧ s.gpc ≠ .off ∧ (s.dpc = .finishing ∨ s.dpc = .returned)
+  join : s.gjoin = true → s.gcan = true ∧ s.gpc = .ended
+  ended : s.gpc = .ended → s.gcan = true
+  off : s.sw = true → s.gpc = .off → s.spc = .off
+  idx : ∀ k, s.gpc = .at k ∨ s.gpc = .inside k → k < s.ts.length
+  scanc : s.spc = .cancelled → s.sw = true → s.gjoin = true
+  soff : s.spc = .off → s.dpc = .top ∨ s.dpc = .dtop
+
 structure Inv (s : St) : Prop where
   m : MInv s
   t : TInv s
   f : FInv s
+  w : GInv s
 
-theorem pc_init (v g f n b t0 j) : pc (init v g f n b t0) j = .idle := by
+theorem pc_init (v g sw f n b t0 j) : pc (init v g sw f n b t0) j = .idle := by
   simp [pc, init, List.getD_eq_getElem?_getD, List.getElem?_replicate]
   split <;> rfl
 
-theorem tsAt_init (v g f n b t0 j) : tsAt (init v g f n b t0) j = .new := by
+theorem tsAt_init (v g sw f n b t0 j) : tsAt (init v g sw f n b t0) j = .new := by
   simp [tsAt, init, List.getD_eq_getElem?_getD, List.getElem?_replicate]
   split <;> rfl
 
@@ -88,8 +107,8 @@ theorem countP_replicate_idle (p : WP → Bool) (hp : p .idle = false) (n : Nat)
     (List.replicate n WP.idle).countP p = 0 := by
   rw [List.countP_eq_zero]; intro a ha; rw [List.eq_of_mem_replicate ha, hp]; simp
 
-theorem minv_init (v : Variant) (g : Bool) (f n : Nat) (b : Bool) (t0 : Nat) : MInv (init v g f n b t0) := by
-  have hpc := pc_init v g f n b t0
+theorem minv_init (v : Variant) (g sw : Bool) (f n : Nat) (b : Bool) (t0 : Nat) : MInv (init v g sw f n b t0) := by
+  have hpc := pc_init v g sw f n b t0
   refine { ownD := ?_, ownW := ?_, ownS1 := ?_, ownS2 := ?_, thdD := ?_, thdW := ?_, thdS1 := ?_, thdS2 := ?_,
            canc := ?_ }
   · simp only [init]; split <;> simp [DPC.holds]
@@ -102,12 +121,12 @@ theorem minv_init (v : Variant) (g : Bool) (f n : Nat) (b : Bool) (t0 : Nat) : M
   · simp [init]
   · simp [init]
 
-theorem tinv_init (v : Variant) (g : Bool) (f n : Nat) (b : Bool) (t0 : Nat) : TInv (init v g f n b t0) := by
+theorem tinv_init (v : Variant) (g sw : Bool) (f n : Nat) (b : Bool) (t0 : Nat) : TInv (init v g sw f n b t0) := by
   refine { len := by simp [init], ok := ?_ }
   intro j; rw [pc_init, tsAt_init]; rfl
 
-theorem finv_init (v : Variant) (g : Bool) (f n : Nat) (b : Bool) (t0 : Nat) : FInv (init v g f n b t0) := by
-  have hpc := pc_init v g f n b t0
+theorem finv_init (v : Variant) (g sw : Bool) (f n : Nat) (b : Bool) (t0 : Nat) : FInv (init v g sw f n b t0) := by
+  have hpc := pc_init v g sw f n b t0
   refine { cnt := ?_, front1 := ?_, front2 := ?_, disp := ?_, drain := ?_, waitEq := ?_, dwaitPos := ?_,
            fin := ?_, park := ?_, dpark := ?_ }
   · simp [init, countP_replicate_idle counted rfl]
@@ -121,7 +140,11 @@ theorem finv_init (v : Variant) (g : Bool) (f n : Nat) (b : Bool) (t0 : Nat) : F
   · simp only [init]; split <;> simp
   · simp only [init]; split <;> simp
 
-theorem inv_init (v : Variant) (g : Bool) (f n : Nat) (b : Bool) (t0 : Nat) : Inv (init v g f n b t0) :=
-  ⟨minv_init v g f n b t0, tinv_init v g f n b t0, finv_init v g f n b t0⟩
+theorem ginv_init (v : Variant) (g sw : Bool) (f n : Nat) (b : Bool) (t0 : Nat) : GInv (init v g sw f n b t0) := by
+  refine ⟨?_, ?_, ?_, ?_, ?_, ?_, ?_, ?_, ?_, ?_, ?_⟩ <;> simp [init, GPC.holds]
+  omega
+
+theorem inv_init (v : Variant) (g sw : Bool) (f n : Nat) (b : Bool) (t0 : Nat) : Inv (init v g sw f n b t0) :=
+  ⟨minv_init v g sw f n b t0, tinv_init v g sw f n b t0, finv_init v g sw f n b t0, ginv_init v g sw f n b t0⟩
 
 end PdshVerif.Dsh.Sig
